@@ -2108,12 +2108,14 @@ class Deb822NoDuplicateFieldsParagraphElement(Deb822ParagraphElement):
         # type: (ParagraphKey) -> None
         """Re-order the given field so it is "last" in the paragraph"""
         unpacked_field, _, _ = _unpack_key(field, raise_if_indexed=True)
+        self._add_final_newline_if_missing()
         self._kvpair_order.order_last(unpacked_field)
 
     def order_first(self, field):
         # type: (ParagraphKey) -> None
         """Re-order the given field so it is "first" in the paragraph"""
         unpacked_field, _, _ = _unpack_key(field, raise_if_indexed=True)
+        self._add_final_newline_if_missing()
         self._kvpair_order.order_first(unpacked_field)
 
     def order_before(self, field, reference_field):
@@ -2123,6 +2125,7 @@ class Deb822NoDuplicateFieldsParagraphElement(Deb822ParagraphElement):
         The reference field must be present."""
         unpacked_field, _, _ = _unpack_key(field, raise_if_indexed=True)
         unpacked_ref_field, _, _ = _unpack_key(reference_field, raise_if_indexed=True)
+        self._add_final_newline_if_missing()
         self._kvpair_order.order_before(unpacked_field, unpacked_ref_field)
 
     def order_after(self, field, reference_field):
@@ -2133,6 +2136,7 @@ class Deb822NoDuplicateFieldsParagraphElement(Deb822ParagraphElement):
         """
         unpacked_field, _, _ = _unpack_key(field, raise_if_indexed=True)
         unpacked_ref_field, _, _ = _unpack_key(reference_field, raise_if_indexed=True)
+        self._add_final_newline_if_missing()
         self._kvpair_order.order_after(unpacked_field, unpacked_ref_field)
 
     def iter_keys(self):
@@ -2261,6 +2265,7 @@ class Deb822DuplicateFieldsParagraphElement(Deb822ParagraphElement):
         """Re-order the given field so it is "last" in the paragraph"""
         nodes, nodes_being_relocated = self._nodes_being_relocated(field)
         assert len(nodes_being_relocated) == 1 or len(nodes) == len(nodes_being_relocated)
+        self._add_final_newline_if_missing()
 
         kvpair_order = self._kvpair_order
         for node in nodes_being_relocated:
@@ -2282,6 +2287,7 @@ class Deb822DuplicateFieldsParagraphElement(Deb822ParagraphElement):
         """Re-order the given field so it is "first" in the paragraph"""
         nodes, nodes_being_relocated = self._nodes_being_relocated(field)
         assert len(nodes_being_relocated) == 1 or len(nodes) == len(nodes_being_relocated)
+        self._add_final_newline_if_missing()
 
         kvpair_order = self._kvpair_order
         for node in nodes_being_relocated:
@@ -2310,6 +2316,7 @@ class Deb822DuplicateFieldsParagraphElement(Deb822ParagraphElement):
         reference_node = reference_nodes[0]
         if reference_node in nodes_being_relocated:
             raise ValueError("Cannot re-order a field relative to itself")
+        self._add_final_newline_if_missing()
 
         kvpair_order = self._kvpair_order
         for node in nodes_being_relocated:
@@ -2334,6 +2341,7 @@ class Deb822DuplicateFieldsParagraphElement(Deb822ParagraphElement):
         reference_node = reference_nodes[-1]
         if reference_node in nodes_being_relocated:
             raise ValueError("Cannot re-order a field relative to itself")
+        self._add_final_newline_if_missing()
 
         kvpair_order = self._kvpair_order
         # Use "reversed" to preserve the relative order of the nodes assuming a bulk reorder
@@ -2680,6 +2688,8 @@ class Deb822FileElement(Deb822Element):
             # Empty list or idx after the last paragraph both degenerate into append
             self.append(para)
         else:
+            # Something will follow the new paragraph
+            para._add_final_newline_if_missing()
             if needs_newline:
                 # Remember to inject the "separating" newline between two paragraphs
                 nl_token = self._set_parent(Deb822WhitespaceToken('\n'))
@@ -2719,6 +2729,9 @@ class Deb822FileElement(Deb822Element):
         # Note the special case where the file ends on a comment; here we insert a whitespace too
         # to be sure.  Otherwise we would have to check that there is an empty line before that
         # comment and that is too much effort.
+        if isinstance(tail_element, Deb822ParagraphElement):
+            # Without this, the separator below would merely terminate the last line
+            tail_element._add_final_newline_if_missing()
         if tail_element and not isinstance(tail_element, Deb822WhitespaceToken):
             self._token_and_elements.append(self._set_parent(Deb822WhitespaceToken('\n')))
         self._token_and_elements.append(self._set_parent(paragraph))
